@@ -1,5 +1,6 @@
 import EgglogVerif.Props.C17
 import EgglogVerif.Props.C05
+import EgglogVerif.Props.C01
 /-
 C06 — Results do not depend on the number of threads (the part a model can carry).
 
@@ -67,3 +68,42 @@ theorem C06_shards {m : V → V → V} (hassoc : ∀ a b c, m (m a b) c = m a (m
   simp [Nat.mod_lt]
 
 end EgglogVerif.Merge
+
+namespace EgglogVerif.EGraph
+
+/-- **The equalities of the e-graph do not depend on the order, interleaving or batching in which
+the same unions and row insertions were applied** (nor on when rebuild passes ran in between):
+two canonical states whose histories contain the same unions and the same inserted rows — as
+SETS — identify exactly the same ids.  This is what makes "apply the pending unions and writes
+of an iteration in parallel, in whatever order the threads get to them" agree with the serial
+engine on every equality. -/
+theorem C06_equalities_order_independent {ds : Nat → Decl} {g1 g2 : EG} {U1 U2 : List (Nat × Nat)} {R1 R2 : List IRow}
+    (i1 : Inv ds g1 U1 R1) (i2 : Inv ds g2 U2 R2) (c1 : Canonical g1) (c2 : Canonical g2)
+    (hU : ∀ p, p ∈ U1 ↔ p ∈ U2) (hR : ∀ r, r ∈ R1 ↔ r ∈ R2) (a b : Int) :
+    g1.find a = g1.find b ↔ g2.find a = g2.find b := by
+  have m12 : ∀ x y, CC ds U1 R1 x y → CC ds U2 R2 x y :=
+    fun _ _ h => CC.mono (fun p hp => (hU p).mp hp) (fun r hr => (hR r).mp hr) h
+  have m21 : ∀ x y, CC ds U2 R2 x y → CC ds U1 R1 x y :=
+    fun _ _ h => CC.mono (fun p hp => (hU p).mpr hp) (fun r hr => (hR r).mpr hr) h
+  constructor
+  · intro h
+    exact (find_eq_iff i2.wf a b).mpr (C01_complete i2 c2 _ _ (m12 _ _ (C01_sound i1 a b h)))
+  · intro h
+    exact (find_eq_iff i1.wf a b).mpr (C01_complete i1 c1 _ _ (m21 _ _ (C01_sound i2 a b h)))
+
+/-- in particular for two op sequences that are permutations of each other, each followed by a
+rebuild that reports its fixpoint -/
+theorem C06_ops_order_independent (decls : Array Decl) (ops1 ops2 : List GOp) (fuel : Nat)
+    (hU : ∀ p, p ∈ ((Traced.mk (EG.init decls) [] []).run ops1).U ↔ p ∈ ((Traced.mk (EG.init decls) [] []).run ops2).U)
+    (hR : ∀ r, r ∈ ((Traced.mk (EG.init decls) [] []).run ops1).R ↔ r ∈ ((Traced.mk (EG.init decls) [] []).run ops2).R)
+    (h1 : (rebuild fuel ((Traced.mk (EG.init decls) [] []).run ops1).g).2 = true)
+    (h2 : (rebuild fuel ((Traced.mk (EG.init decls) [] []).run ops2).g).2 = true) (a b : Int) :
+    (rebuild fuel ((Traced.mk (EG.init decls) [] []).run ops1).g).1.find a = (rebuild fuel ((Traced.mk (EG.init decls) [] []).run ops1).g).1.find b ↔
+    (rebuild fuel ((Traced.mk (EG.init decls) [] []).run ops2).g).1.find a = (rebuild fuel ((Traced.mk (EG.init decls) [] []).run ops2).g).1.find b := by
+  have i1 := Inv.rebuild fuel (C01_reach decls ops1)
+  have i2 := Inv.rebuild fuel (C01_reach decls ops2)
+  have c1 := (rebuild_canonical fuel _ (C01_reach decls ops1).wf h1).1
+  have c2 := (rebuild_canonical fuel _ (C01_reach decls ops2).wf h2).1
+  exact C06_equalities_order_independent i1 i2 c1 c2 hU hR a b
+
+end EgglogVerif.EGraph
